@@ -60,6 +60,17 @@ def cases(tier, seed):
                 yield {"kind": "set-init", "init": list(init), "container": cont}
             for cont in ("pairs", "pair-iterator", "dict"):
                 yield {"kind": "map-init", "init": list(init), "container": cont}
+    # initialisers that are neither lists nor iterators of lists: ranges (ascending, DESCENDING, empty), sets, generators, reversed()
+    for a in (-2, 0, 3):
+        for b_ in (-2, 0, 3, 5):
+            for st in (1, 2, -1, -2):
+                yield {"kind": "set-init-iterable", "range": [a, b_, st], "as": "range"}
+    for init in ([3, 1, 2], [2, 2, 1], [5, 4, 3, 2, 1]):
+        for how in ("set", "frozenset", "generator", "reversed", "dict-keys", "map-object"):
+            yield {"kind": "set-init-iterable", "init": init, "as": how}
+    # keys outside the float range / beyond 2**53 (ints compare exactly with floats in Python; no conversion may be needed)
+    for ks in ([10 ** 400, 1, -10 ** 400], [2 ** 53 + 1, 2 ** 53, 2.0 ** 53], [10 ** 400, 10 ** 400 + 1, 0.5]):
+        yield {"kind": "huge-keys", "keys": [str(k) if isinstance(k, int) else k for k in ks]}
     for how in ("set-none", "set-empty", "set-vals", "map-none", "map-empty", "map-vals"):
         yield {"kind": "two-instances", "how": how}
     yield {"kind": "set-init", "init": None, "container": "none"}
@@ -324,7 +335,67 @@ def _run_two_instances(case):
     return ok("sorted/two-instances")
 
 
-_RUN = {"two-instances": _run_two_instances, "set-init": _run_set_init, "map-init": _run_map_init, "set-history": _run_set_history, "map-history": _run_map_history}
+def _run_set_init_iterable(case):
+    tag = "sortedset/init-iterable"
+    if case["as"] == "range":
+        a, b_, st = case["range"]
+        arg, vals = range(a, b_, st), list(range(a, b_, st))
+    else:
+        vals = list(case["init"])
+        arg = {"set": set, "frozenset": frozenset, "generator": lambda v: (x for x in v), "reversed": reversed,
+               "dict-keys": lambda v: dict.fromkeys(v).keys(), "map-object": lambda v: map(lambda x: x, v)}[case["as"]](vals)
+    s = call(tag, SortedSet, arg)[1]
+    ref = set(vals)
+    _set_state(s, ref, {"init": case}, tag)
+    for x in sorted(ref) + [0.5, -7]:
+        r = call(tag, s.__contains__, x)[1]
+        check(r == (x in ref), tag, x in ref, {"init": case, "probe": x, "in": r})
+    call(tag, s.add, 0.5)
+    ref.add(0.5)
+    if vals:
+        call(tag, s.discard, vals[0])
+        ref.discard(vals[0])
+    _set_state(s, ref, {"init": case, "then": "add 0.5, discard first"}, tag)
+    return ok(tag, trivial=not vals)
+
+
+def _run_huge_keys(case):
+    tag = "sorted/huge-keys"
+    ks = [int(k) if isinstance(k, str) else k for k in case["keys"]]
+    m, ref = call(tag, SortedMap)[1], {}
+    s, sref = call(tag, SortedSet)[1], set()
+    for i, k in enumerate(ks):
+        how = i % 3
+        if how == 0:
+            call(tag, m.__setitem__, k, "v%d" % i)
+            ref[k] = "v%d" % i
+        elif how == 1:
+            r = call(tag, m.setdefault, k, "v%d" % i)[1]
+            check(r == ref.setdefault(k, "v%d" % i), tag, ref[k], {"setdefault": str(k)[:30], "result": r})
+        else:
+            call(tag, m.update, [(k, "v%d" % i)])
+            ref[k] = "v%d" % i
+        call(tag, s.add, k)
+        sref.add(k)
+        ok_keys = call(tag, lambda: take(iter(m), len(ref) + 1))[1]
+        check(ok_keys == sorted(ref), tag, [str(x)[:30] for x in sorted(ref)], {"after": str(k)[:30], "keys": [str(x)[:30] for x in ok_keys]})
+        so = call(tag, lambda: take(iter(s), len(sref) + 1))[1]
+        check(so == sorted(sref), tag, [str(x)[:30] for x in sorted(sref)], {"after": str(k)[:30], "set": [str(x)[:30] for x in so]})
+    for k in ks + [0, 10 ** 401]:
+        r = call(tag, m.get, k, _D)[1]
+        check(r == ref.get(k, _D), tag, ref.get(k, _D), {"get": str(k)[:30], "result": r})
+        r = call(tag, s.__contains__, k)[1]
+        check(r == (k in sref), tag, k in sref, {"in": str(k)[:30], "result": r})
+    for k in ks:
+        r = call(tag, m.pop, k, _D)[1]
+        check(r == ref.pop(k, _D), tag, "dict.pop", {"pop": str(k)[:30], "result": r})
+        call(tag, s.discard, k)
+        sref.discard(k)
+    check(len(m) == len(ref) and len(s) == len(sref), tag, [len(ref), len(sref)], [len(m), len(s)])
+    return ok(tag)
+
+
+_RUN = {"set-init-iterable": _run_set_init_iterable, "huge-keys": _run_huge_keys, "two-instances": _run_two_instances, "set-init": _run_set_init, "map-init": _run_map_init, "set-history": _run_set_history, "map-history": _run_map_history}
 
 
 def run_case(case):
